@@ -220,10 +220,23 @@ def flags_beat_rules(F, rep):
                     if o.fields()[-1:] == [fl[-1]] and (d[1] or "").endswith("::is_none") and pol is True: good = True
                     elif o.fields() and o.fields()[-1] in ("pre_release_label", "pre_release_num", "post_mode") and o.fields()[-1] != fl[-1]: others.add(o.fields()[-1])
         site = "%s bb%d line %s" % (f.where(), bi, f.blocks[bi]["line"])
+        if not good and st[2][0] == "use":
+            # `self.x = self.x.or(rule_value)`: the explicit flag is the receiver of `or` / `or_else`
+            for o in mir.trace_op(f, st[2][1], transparent=()):
+                if o.kind == "call" and any((mir.callee(f.blocks[o.data]["t"]) or "").endswith(x) for x in ("Option::<T>::or", "Option::<T>::or_else")):
+                    if any(o2.fields()[-1:] == [fl[-1]] for o2 in mir.trace_op(f, f.blocks[o.data]["t"][2][0])): good = True
         if good and others:
             rep.bad(rule, "rule-value-depends-on-other-flag:" + fl[-1], "the rule's %s is applied only when %s is (also) absent: giving one explicit flag discards the rule's value for another" % (fl[-1], sorted(others)), site)
         elif good: rep.ok(rule, "rule value for %s is used only when the flag is absent" % fl[-1], sample=site, nontrivial_key=fl[-1])
         else: rep.bad(rule, "rule-overrides-flag:" + fl[-1], "apply_branch_rules writes %s without checking that the explicit flag is absent" % fl[-1], site)
+    # `self.x.get_or_insert_with(|| rule_value)`: inserts only when the flag is absent
+    for bi, t in f.calls():
+        c = mir.callee(t) or ""
+        if c.endswith("Option::<T>::get_or_insert_with") or c.endswith("Option::<T>::get_or_insert"):
+            for o in mir.trace_op(f, t[2][0]):
+                if o.fields() and o.fields()[-1] in ("pre_release_label", "pre_release_num", "post_mode"):
+                    n += 1
+                    rep.ok(rule, "rule value for %s is inserted only when the flag is absent (get_or_insert_with)" % o.fields()[-1], sample="%s bb%d" % (f.where(), bi), nontrivial_key="goi" + o.fields()[-1])
     rep.floor(rule, "rule-derived writes in apply_branch_rules", n, 3)
     g = F.fn("crate::cli::flow::branch_rules::BranchRule::resolve_pre_release_num")
     if rep.anchor(rule, "BranchRule::resolve_pre_release_num", g):
